@@ -87,7 +87,7 @@ func buildScenario(seed int64, mode string, idx int, thorough bool) *scenCase {
 	if g.Chance(1, 5) {
 		nexp = g.Range(20, 50)
 	}
-	sc := &scenCase{Sc: scenario{Proto: proto, UDPSize: size, Workers: workers, GoMaxProcs: procs}}
+	sc := &scenCase{Sc: scenario{Proto: proto, UDPSize: size, Workers: workers, GoMaxProcs: procs, Verbose: variant%4 == 2}}
 	tr := pipe.NewTraffic(g, proto, nexp, size, snap, mode == "mirror", mode == "json")
 	lib := pipe.NewLibCache()
 	id := 0
